@@ -47,7 +47,9 @@ F_RPE = 'C11-rp66-empty-selection-raises'
 F_LISCOL = 'C11-lis-columns-run-together'
 F_LIS1 = 'C11-lis-single-record-stop-step-zero'
 F_LISLP = 'C11-lis-log-pass-without-cons-dropped'
-_STRP_SEEN = set()      # BIT sources on which the STRP mnemonic was already reported in this run
+# the next two can only be reached once F19 is repaired (candidate patch in notes/): residual classes of that patch
+F_LISX0 = 'C11-lis-subset-without-known-channel-x-garbage'
+F_LISSUB = 'C11-lis-subset-subchannel-granularity'
 
 
 # ------------------------------------------------------------------ environment
@@ -122,7 +124,7 @@ def provider_cuts(env, fam, rng, tier):
             continue
         if not cuts:
             continue
-        k = 2 if tier == 'quick' else 5
+        k = 3 if tier == 'quick' else 6
         picks = {cuts[0], cuts[min(len(cuts) - 1, 2)]} | {rng.choice(cuts) for _ in range(k)}
         for c in sorted(picks):
             out.append({'fam': fam, 'kind': 'cut', 'name': os.path.basename(p), 'size': int(c)})
@@ -174,6 +176,15 @@ def ibm_float_bytes(x):
     return bytes([sign | e, (mant >> 16) & 255, (mant >> 8) & 255, mant & 255])
 
 
+def _not_a_number(name):
+    """LASRead turns a mnemonic that float() accepts ('NAN', 'INF', '00') into a number (C09's subject): not generated."""
+    try:
+        float(name.strip())
+        return False
+    except ValueError:
+        return True
+
+
 def random_bit_desc(rng, tiny=False):
     passes = []
     for _ in range(1 if tiny else rng.choice([1, 1, 2, 3])):
@@ -182,7 +193,7 @@ def random_bit_desc(rng, tiny=False):
         while len(names) < nch:
             # first character a letter: LASRead turns an all-digit mnemonic into a number (C09's subject)
             nm = (rng.choice('ABCDEFGHKLMNPRSTUVW') + ''.join(rng.choice('ABCDEFGHKLMNPRSTUVW0123456789') for _ in range(rng.randint(0, 3)))).ljust(4)
-            if nm not in used:
+            if nm not in used and _not_a_number(nm):
                 used.add(nm); names.append(nm)
         nb = 1 if tiny else rng.randint(1, 5)
         blocks = [rng.randint(2, 7)] if tiny else [rng.choice([1, 2, 3, 4, 8, 16]) for _ in range(nb)]
@@ -229,7 +240,7 @@ def encode_bit(desc):
 def provider_bit_generated(env, fam, rng, tier):
     if fam != 'BIT':
         return []
-    return [{'fam': 'BIT', 'kind': 'gen', 'desc': random_bit_desc(rng)} for _ in range(6 if tier == 'quick' else 40)]
+    return [{'fam': 'BIT', 'kind': 'gen', 'desc': random_bit_desc(rng)} for _ in range(16 if tier == 'quick' else 60)]
 
 
 SOURCE_PROVIDERS = {
@@ -300,6 +311,7 @@ class Pass:
         self.rec_of = None          # LIS: (record tell, offset in record) per frame
         self.to_optical = None      # LIS: X -> well-section units
         self.f32 = [False] * len(cols)
+        self.group = None           # LIS: external channel (DSB block) of each column
 
     def x(self):
         return self.cols[0][:, 0] if self.cols else []
@@ -351,15 +363,18 @@ def read_truth(env, fam, path):
             lp.setFrameSet(fi, None, None)
             fs = lp.frameSet
             names = [nm for nm, _u in lp.genFrameSetScNameUnit(toAscii=True)]
-            cols = []
+            cols, group = [], []
             for ch in fs.genExtChIndexes():
                 for sc in range(fs.numSubChannels(ch)):
                     cols.append(np.array(fs.frameView(ch, sc), dtype=np.float64).reshape(n, -1))
+                    group.append(ch)
             assert len(names) == len(cols), (len(names), len(cols))
             if fs.isIndirectX:
                 cols.insert(0, np.array([fs.xAxisValue(i) for i in range(n)], dtype=np.float64).reshape(n, 1))
                 names.insert(0, 'X')
+                group.insert(0, -1)
             p = Pass(str(k), names, cols, [False] * len(cols))
+            p.group = group
             p.indirect = bool(fs.isIndirectX)
             p.rec_of = [lp._rle.tellLrForFrame(i) for i in range(n)]
             uf, ut = lp.xAxisUnits, env.Units.opticalUnits(lp.xAxisUnits)
@@ -581,6 +596,11 @@ def evaluate_pass(env, case, p, las_path, v):
     exp_cols = expected_columns(fam, p, chans)
     refs = {i: reduce_ref(np, p.cols[i], red if fam != 'BIT' else 'first') for i in exp_cols}
     las, err = parse_las(env, las_path)
+    x_garbage = (fam == 'LIS' and p.indirect and bool(chans) and len(exp_cols) == 1 and bool(lis_rows_written(sel, n)))
+    if las is None and x_garbage:
+        # residual of the F19 patch: empty channel list on an implied-X pass leaves the X vector uninitialised (C06 F21)
+        v.fail(f'{tag}: LAS not readable ({err}); no requested channel exists and the implied X is uninitialised', F_LISX0)
+        return None, None
     if las is None:
         # LIS writes the values with no separator: class = some value (not first on its line) as wide as the field
         if fam == 'LIS' and _lis_overflow(p, exp_cols, refs, lis_rows_written(sel, n), w, ff):
@@ -595,7 +615,14 @@ def evaluate_pass(env, case, p, las_path, v):
         got = [str(c.ident).strip() for c in fa.channels]
         want = [p.names[i].strip() for i in exp_cols]
         if got != want:
-            v.fail(f'{tag}: columns {got[:12]} != X axis + requested channels {want[:12]}'); return None, None
+            wide = [i for i in range(len(p.cols)) if i == 0 or p.group[i] in {p.group[j] for j in exp_cols[1:]}] if (fam == 'LIS' and p.group) else None
+            if wide is not None and wide != exp_cols and got == [p.names[i].strip() for i in wide]:
+                # residual of the F19 patch: channels are selected by DSB block, all sub-channels of a block come along
+                v.fail(f'{tag}: columns {got[:12]} hold every sub-channel of the requested channels, wanted {want[:12]}', F_LISSUB)
+                exp_cols = wide
+                refs = {i: reduce_ref(np, p.cols[i], red) for i in exp_cols}
+            else:
+                v.fail(f'{tag}: columns {got[:12]} != X axis + requested channels {want[:12]}'); return None, None
     elif want_rows or (want_rows is None and n > 0):
         v.fail(f'{tag}: no array section but frames were selected'); return [], None
     # ---- rows: recover the frame index of every row by matching its values against the full read
@@ -604,7 +631,9 @@ def evaluate_pass(env, case, p, las_path, v):
     xbad = []
     if rows:
         data = [np.ma.getdata(c.array).reshape(rows, -1)[:, 0].astype(np.float64) for c in fa.channels]
-        hint = want_rows if want_rows is not None else None
+        # the claim under test for each row; for a LIS/BIT sample (only its shape is demanded) the regular stride is used
+        # merely to break ties between frames that carry identical values
+        hint = want_rows if want_rows is not None else (lis_rows_written(sel, n) if fam in ('LIS', 'BIT') else None)
         xsrc = p.cols[0][:, 0].astype(np.float64)
         oks, okx = [], []       # per row: frames matching on every column but an implied X / frames matching on the implied X
         for r in range(rows):
@@ -624,15 +653,14 @@ def evaluate_pass(env, case, p, las_path, v):
         def assign(strict):
             out, prev = [], -1
             for r in range(rows):
-                ok = oks[r] & okx[r] if (strict and p.indirect) else oks[r]
-                if not strict and p.indirect and (oks[r] & okx[r]).any():
-                    ok = oks[r] & okx[r]
-                cands = np.flatnonzero(ok)
-                j = -1
-                if len(cands):
-                    if hint is not None and r < len(hint) and ok[hint[r]]:
-                        j = hint[r]
-                    else:
+                if hint is not None and r < len(hint) and oks[r][hint[r]]:
+                    # the claim under test "row r is selected frame r" fits every column (an implied X is judged below)
+                    j = hint[r]
+                else:
+                    ok = oks[r] & okx[r] if (p.indirect and (strict or (oks[r] & okx[r]).any())) else oks[r]
+                    cands = np.flatnonzero(ok)
+                    j = -1
+                    if len(cands):
                         after = cands[cands > prev]
                         pool = after if len(after) else cands
                         # several frames carry the same values: take the one whose X is nearest to the row's X
@@ -640,6 +668,13 @@ def evaluate_pass(env, case, p, las_path, v):
                 out.append(j)
                 prev = j if j >= 0 else prev
             return out
+        if x_garbage:
+            # only the (uninitialised) implied X was written: the rows cannot be identified at all
+            want_x = [xsrc[j] for j in lis_rows_written(sel, n)]
+            if len(want_x) != rows or any(abs(a - b) > tol * (1 + 1e-9) + abs(a) * 2.0 ** -50 for a, b in zip(want_x, data[0])):
+                v.fail(f'{tag}: X column is not the X of the selected frames; no requested channel exists and the implied X '
+                       f'is uninitialised', F_LISX0)
+            return None, None
         obs = assign(True)
         if -1 in obs and p.indirect:
             obs = assign(False)
@@ -667,7 +702,9 @@ def evaluate_pass(env, case, p, las_path, v):
         if bad:
             v.fail(f'{tag}: {bad}'); return obs, None
     # ---- implied X of LIS rows (F7: stepped slices, records after the first whose first selected frame is not at offset 0)
-    if xbad:
+    if xbad and x_garbage:
+        v.fail(f'{tag}: implied X wrong in {len(xbad)} row(s); no requested channel exists and the implied X is uninitialised', F_LISX0)
+    elif xbad:
         f7 = _f7_rows(p, obs)
         if all(j in f7 for _r, j, _x in xbad):
             v.fail(f'{tag}: implied X wrong in {len(xbad)} row(s), e.g. frame {xbad[0][1]}: {xbad[0][2]} != {p.cols[0][xbad[0][1], 0]}', F_F7)
@@ -742,10 +779,7 @@ def check_well_section(env, case, p, las, obs, v, tag):
     strt, stop = as_float(wsd(las, 'STRT')), as_float(wsd(las, 'STOP'))
     step_m = 'STEP'
     if wsd(las, 'STEP') is None and wsd(las, 'STRP') is not None and fam == 'BIT':
-        skey = json.dumps(case['src'], sort_keys=True)
-        if skey not in _STRP_SEEN:           # every BIT conversion has it: report once per source file
-            _STRP_SEEN.add(skey)
-            v.fail(f'{tag}: well section has the mnemonic STRP where STEP is required', F_STRP)
+        v.fail(f'{tag}: well section has the mnemonic STRP where STEP is required', F_STRP)
         step_m = 'STRP'
     step = as_float(wsd(las, step_m))
     whole = (obs[0] == 0 and obs[-1] == p.n - 1)
@@ -802,8 +836,10 @@ def random_selector(rng, n):
 
 def random_channels(rng, fam, p):
     r = rng.random()
-    if r < 0.45 or not p.names:
+    # LIS: any non-empty subset fails the whole file today (F19) and nothing else can be checked on such a case
+    if r < (0.85 if fam == 'LIS' else 0.45) or not p.names:
         return []
+    r = rng.random() * 0.55 + 0.45
     present = [nm for nm in p.names[1:]] or list(p.names)
     unknown = ['NOPE', 'ZZ9', 'no such', 'x y', '']
     k = rng.choice([1, 1, 2, 3, 5, len(present)])
@@ -848,29 +884,69 @@ def parse_model(reply):
 
 # ------------------------------------------------------------------ driver of a batch of cases
 
-def run_cases(ctx, env, cases, truths, record=True):
-    """Runs the cases; returns the list of Verdicts (one per (case, evaluated pass) is folded into the case's verdict)."""
-    pending = []       # (case, model request, impl string, post) for the correspondence
-    outdir = os.path.join(ctx.scratch, 'out')
-    verdicts = []
-    for case in cases:
+_WORK = {}          # inherited by forked workers: env, truths, scratch
+
+
+def _one_case(case):
+    """Convert + evaluate one case (in a worker or in-process). Returns a picklable summary of the Verdict:
+    (fails, nontriv, [(pass index in the truth, observed rows, (STRT idx, STOP idx))])."""
+    env, truths, scratch = _WORK['env'], _WORK['truths'], _WORK['scratch']
+    path, truth = truths[json.dumps(case['src'], sort_keys=True)]
+    outdir = os.path.join(scratch, 'out_%d' % os.getpid())
+    v = Verdict()
+    try:
+        res, outs = run_converter(env, case, path, outdir)
+    except Exception as e:       # the converter must report, not raise
+        v.fail(f'single_*_to_las raised {type(e).__name__}: {str(e)[:200]}')
+        res = None
+    if res is not None:
+        evaluate_case(env, case, truth, res, outs, outdir, v)
+    passes = truth[0]
+    seen = [([i for i, q in enumerate(passes) if q is p][0], obs, widx) for p, obs, widx in v.seen]
+    return v.fails, v.nontriv, seen
+
+
+def _init_worker():
+    logging.disable(logging.CRITICAL)
+    warnings.simplefilter('ignore')
+
+
+def run_cases(ctx, env, cases, truths, record=True, jobs=None):
+    """Runs the cases (in forked workers when there are many); returns one Verdict per case, in order."""
+    _WORK.update(env=env, truths=truths, scratch=ctx.scratch)
+    if jobs is None:
+        jobs = min(12, os.cpu_count() or 1) if len(cases) >= 64 else 1
+    if jobs > 1:
+        import multiprocessing
+        with multiprocessing.get_context('fork').Pool(jobs, initializer=_init_worker) as pool:
+            results = pool.map(_one_case, cases, chunksize=8)
+    else:
+        results = [_one_case(c) for c in cases]
+    pending, verdicts = [], []      # pending: (case, model request, impl string, xinfo) for the correspondence
+    strp_seen = set()
+    for case, (fails, nontriv, seen) in zip(cases, results):
         key = json.dumps(case['src'], sort_keys=True)
-        path, truth = truths[key]
+        truth = truths[key][1]
         v = Verdict()
+        v.nontriv = nontriv
+        for detail, finding in fails:
+            if finding == F_STRP:            # every BIT conversion has it: report once per source file
+                if key in strp_seen:
+                    continue
+                strp_seen.add(key)
+            v.fail(detail, finding)
         verdicts.append(v)
         ctx.count('oracle_cases'); ctx.count('cases_' + case['fam'])
-        try:
-            res, outs = run_converter(env, case, path, outdir)
-        except Exception as e:       # the converter must report, not raise
-            v.fail(f'single_*_to_las raised {type(e).__name__}: {str(e)[:200]}')
-            res = None
-        if res is not None:
-            _evaluate_with_corr(ctx, env, case, truth, res, outs, outdir, v, pending)
         if record:
             for detail, finding in v.fails:
                 ctx.fail(case, detail, finding)
             for k in v.nontriv:
                 ctx.nontriv(k)
+        for pi, obs, widx in seen:
+            p = truth[0][pi]
+            impl = 'rows=' + ','.join(map(str, obs))
+            xinfo = (p.cols[0][:, 0], widx) if (case['fam'] == 'RP66V1' and obs and widx is not None) else None
+            pending.append((case, model_request(case['fam'], case['sel'], p.n), impl, xinfo))
     # one model call for the whole batch
     if pending and getattr(ctx, 'model_available', True):
         replies = ctx.lean([q for _c, q, _i, _x in pending])
@@ -883,17 +959,6 @@ def run_cases(ctx, env, cases, truths, record=True):
                 impl += f' strt={si} stop={ti}'
             ctx.corr('rows_' + case['fam'], {'case': case, 'request': q}, impl, model)
     return verdicts
-
-
-def _evaluate_with_corr(ctx, env, case, truth, res, outs, outdir, v, pending):
-    """evaluate_case, then queue the observed row list of every evaluated pass for the correspondence."""
-    evaluate_case(env, case, truth, res, outs, outdir, v)
-    for p, obs, widx in v.seen:
-        impl = 'rows=' + ','.join(map(str, obs))
-        xinfo = None
-        if case['fam'] == 'RP66V1' and obs and widx is not None:
-            xinfo = (p.cols[0][:, 0], widx)
-        pending.append((case, model_request(case['fam'], case['sel'], p.n), impl, xinfo))
 
 
 def load_sources(ctx, env):
@@ -930,10 +995,9 @@ def run(ctx):
 def _run(ctx):
     env = Env()
     rng = ctx.rng
-    _STRP_SEEN.clear()
     truths, specs = load_sources(ctx, env)
     cases, directed = [], []
-    per_source = {'RP66V1': ctx.n(22, 220), 'LIS': ctx.n(26, 260), 'BIT': ctx.n(14, 120)}
+    per_source = {'RP66V1': ctx.n(90, 300), 'LIS': ctx.n(110, 360), 'BIT': ctx.n(80, 200)}
     for fam in FAMS:
         for spec in specs[fam]:
             truth = truths[json.dumps(spec, sort_keys=True)][1]
